@@ -159,7 +159,7 @@ _CLASSES = [
                "range end index", "range start index"]),
     ("conversion", ["cannot be made into", "could not fit", "is an invalid radix", "invalid radix",
                     "is an invalid power", "out of range integral type conversion",
-                    "not an Int", "not a BigInt", "not a Float", "invalid digit", "cannot parse",
+                    "invalid digit", "cannot parse",      # ("not an Int / a BigInt / a Float" is NOT here: that is a make_int / make_bigint / make_float instruction refusing the literal the compiler handed it - a miscompilation, never a conversion the program asked for)
                     "invalid float literal", "number too large", "number too small",
                     "provided string was not", "cannot convert", "could not convert", "cannot be converted",
                     "to_digit: radix is too high", "from_str_radix"]),
